@@ -123,7 +123,11 @@ def neighbours(run, rng, n):
         try:
             st = FileStorage(d) if d else RamStorage()
             schema = fields.Schema(key=fields.ID(stored=True, unique=True), body=fields.TEXT, n=fields.NUMERIC(sortable=True))
-            ixs = [st.create_index(schema, indexname=nm) for nm in names]
+            # (created in any order: also the index whose name another one begins with after that other one)
+            made = {}
+            for nm in rng.sample(names, len(names)):
+                made[nm] = st.create_index(schema, indexname=nm)
+            ixs = [made[nm] for nm in names]
             model = [set() for _ in names]
             held = []
             for rnd in range(rng.randrange(3, 6)):
